@@ -31,7 +31,7 @@ for k in known:
     subprocess.check_call(["git", "-C", "/repo", "apply", pf])
     det = {"property": prop, "commit": commit, "runs": [], "ported": pf == ported}
     try:
-        for budget in (None, "120000"):
+        for budget in (None, "120000", "300000"):
             env = dict(os.environ)
             env["VERIF_EVIDENCE_DIR"] = "/verif/.build/sweep-evidence"
             if budget:
